@@ -174,3 +174,609 @@ Proof.
     destruct (index_of_spec k p Hin) as [H1 H2].
     rewrite nth_gather by exact H1. rewrite H2. reflexivity.
 Qed.
+
+(* ------------------------------------------------------------------ transpose *)
+Lemma inb_transpose p ls qs idx : Permutation p (seq 0 (length ls)) ->
+  inb (gather dleg p ls) (gather 0%nat p qs) (gather 0%nat p idx) = inb ls qs idx.
+Proof.
+  intros HP. pose proof (perm_seq_length _ _ HP) as Hl.
+  unfold inb. rewrite gather_length.
+  set (G := fun j => in1 (nth j ls dleg) (nth j qs 0%nat) (nth j idx 0%nat)).
+  transitivity (forallb G (map (fun k => nth k p 0%nat) (seq 0 (length p)))).
+  - rewrite <- forallb_comp. apply forallb_ext_in. intros k Hk. apply in_seq in Hk. unfold G.
+    rewrite !nth_gather by lia. reflexivity.
+  - rewrite map_nth_seq. apply forallb_perm. exact HP.
+Qed.
+
+Lemma loc_transpose p ls qs idx : Permutation p (seq 0 (length ls)) ->
+  loc (gather dleg p ls) (gather 0%nat p qs) (gather 0%nat p idx) = gather 0%nat p (loc ls qs idx).
+Proof.
+  intros HP. unfold loc. rewrite gather_length.
+  set (L := fun j => (nth j idx 0 - bstart (nth j ls dleg) (nth j qs 0))%nat).
+  transitivity (map L (map (fun k => nth k p 0%nat) (seq 0 (length p)))).
+  - rewrite map_map. apply map_ext_in. intros k Hk. apply in_seq in Hk. unfold L.
+    rewrite !nth_gather by lia. reflexivity.
+  - rewrite map_nth_seq. unfold gather. apply map_ext_in. intros k Hk.
+    assert (Hlt : (k < length ls)%nat) by (eapply perm_seq_lt; eauto).
+    rewrite (nth_map_in L (seq 0 (length ls)) k 0%nat 0%nat) by (rewrite seq_length; lia).
+    rewrite seq_nth by lia. reflexivity.
+Qed.
+
+Lemma bval_transpose p ls idx (b : block) : Permutation p (seq 0 (length ls)) ->
+  bval (gather dleg p ls) (gather 0%nat p idx)
+       (gather 0%nat p (fst b), fun j => snd b (gather 0%nat (invperm p) j)) = bval ls idx b.
+Proof.
+  intros HP. unfold bval. cbn [fst snd]. rewrite inb_transpose by exact HP.
+  destruct (inb ls (fst b) idx); [|reflexivity].
+  rewrite loc_transpose by exact HP. rewrite (gather_inv p (length ls)); [reflexivity|exact HP|].
+  unfold loc. rewrite map_length, seq_length. reflexivity.
+Qed.
+
+Lemma transpose_vals p a idx : Permutation p (seq 0 (rank a)) ->
+  map (bval (legs (transpose p a)) (gather 0%nat p idx)) (blks (transpose p a)) = map (bval (legs a) idx) (blks a).
+Proof.
+  intros HP. unfold transpose. cbn [legs blks]. rewrite map_map. apply map_ext. intros b.
+  apply bval_transpose. exact HP.
+Qed.
+
+(* np.transpose(D, p)[i_p0, i_p1, ...] = D[i_0, i_1, ...] *)
+Theorem transpose_dense p a idx : Permutation p (seq 0 (rank a)) ->
+  to_ndarray (transpose p a) (gather 0%nat p idx) = to_ndarray a idx /\
+  dense_sum (transpose p a) (gather 0%nat p idx) = dense_sum a idx.
+Proof.
+  intros HP. unfold to_ndarray, dense_sum. rewrite transpose_vals by exact HP. split; reflexivity.
+Qed.
+
+(* ------------------------------------------------------------------ conj, scale *)
+Lemma inb_conj ls qs idx : inb (map conj_leg ls) qs idx = inb ls qs idx.
+Proof.
+  unfold inb. rewrite map_length. apply forallb_ext_in. intros k Hk. apply in_seq in Hk.
+  rewrite (nth_map_in conj_leg ls k dleg dleg) by lia. reflexivity.
+Qed.
+
+Lemma loc_conj ls qs idx : loc (map conj_leg ls) qs idx = loc ls qs idx.
+Proof.
+  unfold loc. rewrite map_length. apply map_ext_in. intros k Hk. apply in_seq in Hk.
+  rewrite (nth_map_in conj_leg ls k dleg dleg) by lia. reflexivity.
+Qed.
+
+Lemma conj_vals ci a idx :
+  map (bval (legs (conj ci a)) idx) (blks (conj ci a)) = map (omap cconj) (map (bval (legs a) idx) (blks a)).
+Proof.
+  unfold conj. cbn [legs blks]. rewrite !map_map. apply map_ext. intros b. unfold bval. cbn [fst snd].
+  rewrite inb_conj, loc_conj. destruct (inb (legs a) (fst b) idx); reflexivity.
+Qed.
+
+Theorem conj_dense ci a idx :
+  to_ndarray (conj ci a) idx = cconj (to_ndarray a idx) /\ dense_sum (conj ci a) idx = cconj (dense_sum a idx).
+Proof.
+  unfold to_ndarray, dense_sum. rewrite conj_vals. split.
+  - apply olast_omap. reflexivity.
+  - apply osum_omap; [reflexivity|apply cconj_add].
+Qed.
+
+Lemma scale_blocks_vals s ls idx bs :
+  map (bval ls idx) (scale_blocks s bs) = map (omap (cmul s)) (map (bval ls idx) bs).
+Proof.
+  unfold scale_blocks. rewrite !map_map. apply map_ext. intros b. unfold bval. cbn [fst snd].
+  destruct (inb ls (fst b) idx); reflexivity.
+Qed.
+
+Theorem scale_dense s a idx :
+  to_ndarray (scale s a) idx = cmul s (to_ndarray a idx) /\ dense_sum (scale s a) idx = cmul s (dense_sum a idx).
+Proof.
+  unfold scale. destruct (ceqb s c0) eqn:E.
+  - apply ceqb_eq in E. subst s. unfold to_ndarray, dense_sum. cbn [legs blks map].
+    rewrite !cmul_0_l. split; reflexivity.
+  - unfold to_ndarray, dense_sum. cbn [legs blks]. rewrite scale_blocks_vals. split.
+    + apply olast_omap. apply cmul_0_r.
+    + apply osum_omap; [apply cmul_0_r|apply cmul_add_r].
+Qed.
+
+(* ------------------------------------------------------------------ charge rule *)
+Lemma sumZ_map_opp {A} (f : A -> Z) l : sumZ (map (fun x => - f x) l) = - sumZ (map f l).
+Proof. induction l as [|x l IH]; cbn [map sumZ]; lia. Qed.
+
+Lemma chg_conj l q j : chg (conj_leg l) q j = - chg l q j.
+Proof. unfold chg, conj_leg. cbn [qc bch]. ring. Qed.
+
+Lemma row_charge_conj ls qs j : row_charge (map conj_leg ls) qs j = - row_charge ls qs j.
+Proof.
+  unfold row_charge. rewrite map_length. rewrite <- sumZ_map_opp. f_equal.
+  apply map_ext_in. intros k Hk. apply in_seq in Hk.
+  rewrite (nth_map_in conj_leg ls k dleg dleg) by lia. apply chg_conj.
+Qed.
+
+Lemma row_charge_transpose p ls qs j : Permutation p (seq 0 (length ls)) ->
+  row_charge (gather dleg p ls) (gather 0%nat p qs) j = row_charge ls qs j.
+Proof.
+  intros HP. unfold row_charge. rewrite gather_length.
+  set (G := fun k => chg (nth k ls dleg) (nth k qs 0%nat) j).
+  transitivity (sumZ (map G (map (fun k => nth k p 0%nat) (seq 0 (length p))))).
+  - rewrite map_map. f_equal. apply map_ext_in. intros k Hk. apply in_seq in Hk. unfold G.
+    rewrite !nth_gather by lia. reflexivity.
+  - rewrite map_nth_seq. apply sumZ_perm. apply Permutation_map. exact HP.
+Qed.
+
+Lemma row_charge_app la lb qa qb j : length qa = length la ->
+  row_charge (la ++ lb) (qa ++ qb) j = row_charge la qa j + row_charge lb qb j.
+Proof.
+  intros Hl. unfold row_charge. rewrite app_length, seq_app, map_app, sumZ_app. f_equal.
+  - f_equal. apply map_ext_in. intros k Hk. apply in_seq in Hk.
+    rewrite !app_nth1 by lia. reflexivity.
+  - cbn [Nat.add]. rewrite map_seq_shift. f_equal. apply map_ext. intros k.
+    rewrite <- Hl at 2. rewrite !app_nth2_plus. reflexivity.
+Qed.
+
+Lemma row_ok_conj ci ls qt r : valid_ci ci -> length qt = length ci ->
+  row_ok ci ls qt r -> row_ok ci (map conj_leg ls) (make_valid ci (vneg qt)) r.
+Proof.
+  intros Hv Hl H j Hj. specialize (H j Hj).
+  rewrite nth_make_valid by (unfold vneg; rewrite ?map_length; lia).
+  rewrite nth_vneg, row_charge_conj, <- H.
+  symmetry. apply mv1_opp. apply valid_ci_nth. exact Hv.
+Qed.
+
+Lemma row_ok_outer ci la lb qta qtb ra rb : valid_ci ci ->
+  length qta = length ci -> length qtb = length ci -> length ra = length la ->
+  row_ok ci la qta ra -> row_ok ci lb qtb rb ->
+  row_ok ci (la ++ lb) (make_valid ci (vadd qta qtb)) (ra ++ rb).
+Proof.
+  intros Hv Ha Hb Hl H1 H2 j Hj. specialize (H1 j Hj). specialize (H2 j Hj).
+  rewrite nth_make_valid by (rewrite ?vadd_length; lia).
+  rewrite nth_vadd by lia. rewrite row_charge_app by exact Hl.
+  rewrite <- H1, <- H2. apply mv1_add. apply valid_ci_nth. exact Hv.
+Qed.
+
+(* contracted legs: the charges cancel *)
+Lemma row_charge_contract ci lc lc' rc j : (j < length ci)%nat -> valid_ci ci ->
+  Forall2 (contractible ci) lc lc' -> length rc = length lc ->
+  mv1 (nth j ci 1) (row_charge lc rc j + row_charge lc' rc j) = mv1 (nth j ci 1) 0.
+Proof.
+  intros Hj Hv HF. revert rc. induction HF as [|l l' lc lc' [_ Hc] _ IH]; intros rc Hrc.
+  - unfold row_charge. cbn. reflexivity.
+  - pose proof (valid_ci_nth ci j Hv) as Hm.
+    destruct rc as [|q rc]; [discriminate Hrc|]. cbn [length] in Hrc.
+    change (l :: lc) with ([l] ++ lc). change (l' :: lc') with ([l'] ++ lc').
+    change (q :: rc) with ([q] ++ rc).
+    rewrite !row_charge_app by reflexivity.
+    replace (row_charge [l] [q] j + row_charge lc rc j + (row_charge [l'] [q] j + row_charge lc' rc j))
+      with ((row_charge [l] [q] j + row_charge [l'] [q] j) + (row_charge lc rc j + row_charge lc' rc j)) by lia.
+    assert (E1 : row_charge [l] [q] j + row_charge [l'] [q] j = chg l q j + chg l' q j).
+    { unfold row_charge. cbn. lia. }
+    rewrite E1. rewrite (mv1_congr_add _ _ 0 _ 0 Hm (Hc q j Hj) (IH rc ltac:(lia))). reflexivity.
+Qed.
+
+(* tensordot: a has legs la ++ lc and row ra ++ rc, b has legs lc' ++ lb and row rc ++ rb *)
+Lemma row_ok_tensordot ci la lc lc' lb qta qtb ra rc rb : valid_ci ci ->
+  length qta = length ci -> length qtb = length ci ->
+  length ra = length la -> length rc = length lc -> length lc' = length lc ->
+  Forall2 (contractible ci) lc lc' ->
+  row_ok ci (la ++ lc) qta (ra ++ rc) -> row_ok ci (lc' ++ lb) qtb (rc ++ rb) ->
+  row_ok ci (la ++ lb) (make_valid ci (vadd qta qtb)) (ra ++ rb).
+Proof.
+  intros Hv Ha Hb Hla Hlc Hlc' HF H1 H2 j Hj. specialize (H1 j Hj). specialize (H2 j Hj).
+  pose proof (valid_ci_nth ci j Hv) as Hm.
+  rewrite nth_make_valid by (rewrite ?vadd_length; lia).
+  rewrite nth_vadd by lia.
+  rewrite row_charge_app in H1 by exact Hla.
+  rewrite row_charge_app in H2 by lia.
+  rewrite row_charge_app by exact Hla.
+  rewrite <- H1, <- H2. rewrite <- mv1_add by exact Hm.
+  pose proof (row_charge_contract ci lc lc' rc j Hj Hv HF Hlc) as Hc.
+  replace (row_charge la ra j + row_charge lc rc j + (row_charge lc' rc j + row_charge lb rb j))
+    with ((row_charge la ra j + row_charge lb rb j) + (row_charge lc rc j + row_charge lc' rc j)) by lia.
+  rewrite (mv1_congr_add _ _ (row_charge la ra j + row_charge lb rb j) _ 0 Hm eq_refl Hc).
+  f_equal. lia.
+Qed.
+
+(* ------------------------------------------------------------------ the order of _qdata rows *)
+Lemma lex_lt_irrefl a : lex_lt a a = false.
+Proof.
+  induction a as [|x a IH]; cbn [lex_lt]; [reflexivity|].
+  rewrite IH, andb_false_r, orb_false_r. apply Nat.ltb_irrefl.
+Qed.
+
+Lemma lex_lt_trans a b c : lex_lt a b = true -> lex_lt b c = true -> lex_lt a c = true.
+Proof.
+  revert b c. induction a as [|x a IH]; intros [|y b] [|z c]; cbn [lex_lt]; intros H1 H2;
+    try discriminate; try reflexivity.
+  apply orb_true_iff in H1. apply orb_true_iff in H2. apply orb_true_iff.
+  destruct H1 as [H1|H1]; destruct H2 as [H2|H2].
+  - left. apply Nat.ltb_lt in H1, H2. apply Nat.ltb_lt. lia.
+  - apply andb_true_iff in H2. destruct H2 as [H2 _]. apply Nat.eqb_eq in H2. subst z. left. exact H1.
+  - apply andb_true_iff in H1. destruct H1 as [H1 _]. apply Nat.eqb_eq in H1. subst y. left. exact H2.
+  - apply andb_true_iff in H1. destruct H1 as [H1 H1']. apply andb_true_iff in H2. destruct H2 as [H2 H2'].
+    apply Nat.eqb_eq in H1, H2. subst y z. right. rewrite Nat.eqb_refl. cbn [andb]. eapply IH; eassumption.
+Qed.
+
+Lemma lex_lt_total a b : lex_lt a b = false -> lex_lt b a = false -> a = b.
+Proof.
+  revert b. induction a as [|x a IH]; intros [|y b]; cbn [lex_lt]; intros H1 H2;
+    try discriminate; try reflexivity.
+  apply orb_false_iff in H1. destruct H1 as [H1 H1']. apply orb_false_iff in H2. destruct H2 as [H2 H2'].
+  apply Nat.ltb_ge in H1, H2. assert (x = y) by lia. subst y.
+  rewrite Nat.eqb_refl in H1', H2'. cbn [andb] in H1', H2'. f_equal. apply IH; assumption.
+Qed.
+
+Lemma row_lt_irrefl a : row_lt a a = false.
+Proof. apply lex_lt_irrefl. Qed.
+Lemma row_lt_trans a b c : row_lt a b = true -> row_lt b c = true -> row_lt a c = true.
+Proof. apply lex_lt_trans. Qed.
+Lemma row_lt_total a b : row_lt a b = false -> row_lt b a = false -> a = b.
+Proof.
+  unfold row_lt. intros H1 H2. pose proof (lex_lt_total _ _ H1 H2) as H.
+  rewrite <- (rev_involutive a), <- (rev_involutive b). f_equal. exact H.
+Qed.
+Lemma row_eqb_eq a b : row_eqb a b = true <-> a = b.
+Proof.
+  revert b. induction a as [|x a IH]; intros [|y b]; cbn; split; intros H; try discriminate; try reflexivity.
+  - apply andb_true_iff in H. destruct H as [H1 H2]. apply Nat.eqb_eq in H1. apply IH in H2. subst. reflexivity.
+  - injection H as -> ->. rewrite Nat.eqb_refl. cbn. apply IH. reflexivity.
+Qed.
+
+(* strongly sorted (every earlier row below every later one) *)
+Fixpoint ssorted (l : list (list nat)) : Prop :=
+  match l with [] => True | a :: t => (forall x, In x t -> row_lt a x = true) /\ ssorted t end.
+
+Lemma ssorted_of_strictly l : strictly_sorted l = true -> ssorted l.
+Proof.
+  induction l as [|a t IH]; intros H; [exact I|].
+  destruct t as [|b t'].
+  - split; [intros x []|exact I].
+  - cbn [strictly_sorted] in H. apply andb_true_iff in H. destruct H as [H1 H2].
+    specialize (IH H2). split; [|exact IH].
+    intros x [<-|Hx]; [exact H1|]. destruct IH as [IH1 _]. eapply row_lt_trans; [exact H1|]. apply IH1. exact Hx.
+Qed.
+
+Lemma strictly_of_ssorted l : ssorted l -> strictly_sorted l = true.
+Proof.
+  induction l as [|a t IH]; intros H; [reflexivity|].
+  destruct H as [H1 H2]. destruct t as [|b t']; [reflexivity|].
+  cbn [strictly_sorted]. rewrite (H1 b (or_introl eq_refl)). cbn. apply IH. exact H2.
+Qed.
+
+Lemma ssorted_nodup l : ssorted l -> NoDup l.
+Proof.
+  induction l as [|a t IH]; intros H; [constructor|].
+  destruct H as [H1 H2]. constructor.
+  - intros Hin. specialize (H1 a Hin). rewrite row_lt_irrefl in H1. discriminate.
+  - apply IH. exact H2.
+Qed.
+
+(* ------------------------------------------------------------------ merge of two block lists *)
+Lemma merge_nil_r la : merge la [] = la.
+Proof. destruct la; reflexivity. Qed.
+
+Lemma merge_cons ba ta bb tb :
+  merge (ba :: ta) (bb :: tb) =
+  if row_eqb (fst ba) (fst bb) then (fst ba, badd (snd ba) (snd bb)) :: merge ta tb
+  else if row_lt (fst bb) (fst ba) then bb :: merge (ba :: ta) tb
+  else ba :: merge ta (bb :: tb).
+Proof. reflexivity. Qed.
+
+Lemma merge_rows_in la lb r : In r (map fst (merge la lb)) -> In r (map fst la) \/ In r (map fst lb).
+Proof.
+  revert lb. induction la as [|ba ta IHa]; intros lb H; [right; exact H|].
+  induction lb as [|bb tb IHb]; [rewrite merge_nil_r in H; left; exact H|].
+  rewrite merge_cons in H.
+  destruct (row_eqb (fst ba) (fst bb)) eqn:E.
+  - cbn [map fst In] in H. destruct H as [<-|H]; [left; left; reflexivity|].
+    apply IHa in H. destruct H as [H|H]; [left; right; exact H|right; right; exact H].
+  - destruct (row_lt (fst bb) (fst ba)) eqn:E2.
+    + cbn [map In] in H. destruct H as [<-|H]; [right; left; reflexivity|].
+      apply IHb in H. destruct H as [H|H]; [left; exact H|right; right; exact H].
+    + cbn [map In] in H. destruct H as [<-|H]; [left; left; reflexivity|].
+      apply IHa in H. destruct H as [H|H]; [left; right; exact H|right; exact H].
+Qed.
+
+Lemma merge_ssorted la lb : ssorted (map fst la) -> ssorted (map fst lb) -> ssorted (map fst (merge la lb)).
+Proof.
+  revert lb. induction la as [|ba ta IHa]; intros lb Ha Hb; [exact Hb|].
+  induction lb as [|bb tb IHb]; [rewrite merge_nil_r; exact Ha|].
+  rewrite merge_cons. cbn [map ssorted] in Ha, Hb. destruct Ha as [Ha1 Ha2]. destruct Hb as [Hb1 Hb2].
+  destruct (row_eqb (fst ba) (fst bb)) eqn:E.
+  - apply row_eqb_eq in E. cbn [map fst ssorted]. split; [|apply IHa; assumption].
+    intros x Hx. apply merge_rows_in in Hx. destruct Hx as [Hx|Hx]; [apply Ha1; exact Hx|rewrite E; apply Hb1; exact Hx].
+  - destruct (row_lt (fst bb) (fst ba)) eqn:E2.
+    + cbn [map ssorted]. split; [|apply IHb; exact Hb2].
+      intros x Hx. apply merge_rows_in in Hx. destruct Hx as [Hx|Hx]; [|apply Hb1; exact Hx].
+      cbn [map In] in Hx. destruct Hx as [<-|Hx]; [exact E2|].
+      eapply row_lt_trans; [exact E2|apply Ha1; exact Hx].
+    + assert (E3 : row_lt (fst ba) (fst bb) = true).
+      { destruct (row_lt (fst ba) (fst bb)) eqn:E3; [reflexivity|].
+        pose proof (row_lt_total _ _ E3 E2) as Heq. apply row_eqb_eq in Heq. congruence. }
+      cbn [map ssorted]. split; [|apply IHa; [exact Ha2|cbn [map ssorted]; split; assumption]].
+      intros x Hx. apply merge_rows_in in Hx. destruct Hx as [Hx|Hx]; [apply Ha1; exact Hx|].
+      cbn [map In] in Hx. destruct Hx as [<-|Hx]; [exact E3|].
+      eapply row_lt_trans; [exact E3|apply Hb1; exact Hx].
+Qed.
+
+(* ------------------------------------------------------------------ isort_qdata *)
+Lemma insert_block_perm b l : Permutation (insert_block b l) (b :: l).
+Proof.
+  induction l as [|c t IH]; cbn [insert_block]; [apply Permutation_refl|].
+  destruct (row_lt (fst c) (fst b)); [|apply Permutation_refl].
+  eapply Permutation_trans; [apply perm_skip; exact IH|apply perm_swap].
+Qed.
+
+Lemma sort_blocks_perm l : Permutation (sort_blocks l) l.
+Proof.
+  induction l as [|b l IH]; cbn [sort_blocks fold_right]; [apply Permutation_refl|].
+  fold (sort_blocks l). eapply Permutation_trans; [apply insert_block_perm|apply perm_skip; exact IH].
+Qed.
+
+Lemma insert_block_ssorted b l : ssorted (map fst l) -> ~ In (fst b) (map fst l) -> ssorted (map fst (insert_block b l)).
+Proof.
+  induction l as [|c t IH]; intros Hs Hn; cbn [insert_block].
+  - cbn. split; [intros x []|exact I].
+  - cbn [map ssorted] in Hs. destruct Hs as [Hs1 Hs2].
+    destruct (row_lt (fst c) (fst b)) eqn:E.
+    + cbn [map ssorted]. split.
+      * intros x Hx. apply (Permutation_in _ (Permutation_map fst (insert_block_perm b t))) in Hx.
+        cbn [map In] in Hx. destruct Hx as [<-|Hx]; [exact E|apply Hs1; exact Hx].
+      * apply IH; [exact Hs2|]. intros Hin. apply Hn. right. exact Hin.
+    + assert (E2 : row_lt (fst b) (fst c) = true).
+      { destruct (row_lt (fst b) (fst c)) eqn:E2; [reflexivity|].
+        exfalso. apply Hn. left. apply row_lt_total; assumption. }
+      cbn [map ssorted]. split; [|split; assumption].
+      intros x [<-|Hx]; [exact E2|]. eapply row_lt_trans; [exact E2|apply Hs1; exact Hx].
+Qed.
+
+Lemma sort_blocks_ssorted l : NoDup (map fst l) -> ssorted (map fst (sort_blocks l)).
+Proof.
+  induction l as [|b l IH]; intros Hn; [exact I|].
+  cbn [sort_blocks fold_right]. fold (sort_blocks l). inversion Hn as [|x y Hx Hy]; subst.
+  apply insert_block_ssorted; [apply IH; exact Hy|].
+  intros Hin. apply Hx. apply (Permutation_in _ (Permutation_map fst (sort_blocks_perm l))). exact Hin.
+Qed.
+
+Lemma isort_rows_perm a : Permutation (rows (isort_qdata a)) (rows a).
+Proof.
+  unfold isort_qdata, rows. destruct (qsorted a); [apply Permutation_refl|].
+  cbn [blks]. apply Permutation_map. apply sort_blocks_perm.
+Qed.
+
+(* THE place where the cached claim is trusted: a truthful claim makes the result of isort_qdata sorted *)
+Lemma isort_ssorted a : claim_truthful a -> NoDup (rows a) -> ssorted (rows (isort_qdata a)).
+Proof.
+  intros Hc Hn. unfold isort_qdata. destruct (qsorted a) eqn:E.
+  - apply ssorted_of_strictly. apply Hc. exact E.
+  - unfold rows. cbn [blks]. apply sort_blocks_ssorted. exact Hn.
+Qed.
+
+(* ------------------------------------------------------------------ blocks of different rows do not overlap *)
+Lemma firstn_sum_step (l : list nat) q : list_sum (firstn (S q) l) = (list_sum (firstn q l) + nth q l 0)%nat.
+Proof.
+  unfold list_sum. revert q. induction l as [|x l IH]; intros [|q]; cbn [firstn fold_right nth]; try lia.
+  specialize (IH q). cbn [firstn] in IH. rewrite IH. lia.
+Qed.
+
+Lemma firstn_sum_mono (l : list nat) q q' : (q <= q')%nat -> (list_sum (firstn q l) <= list_sum (firstn q' l))%nat.
+Proof.
+  induction 1 as [|q' _ IH]; [lia|]. rewrite firstn_sum_step. lia.
+Qed.
+
+Lemma in1_disjoint l q q' x : q <> q' -> in1 l q x = true -> in1 l q' x = false.
+Proof.
+  unfold in1, bstart, bsize. intros Hne H.
+  apply andb_true_iff in H. destruct H as [H1 H2]. apply Nat.leb_le in H1. apply Nat.ltb_lt in H2.
+  apply andb_false_iff.
+  destruct (Nat.lt_ge_cases q q') as [Hlt|Hge].
+  - left. apply Nat.leb_gt.
+    pose proof (firstn_sum_mono (bsz l) (S q) q' Hlt) as Hm. rewrite firstn_sum_step in Hm. lia.
+  - right. apply Nat.ltb_ge.
+    assert (Hlt : (S q' <= q)%nat) by lia.
+    pose proof (firstn_sum_mono (bsz l) (S q') q Hlt) as Hm. rewrite firstn_sum_step in Hm. lia.
+Qed.
+
+Lemma rows_differ (r r' : list nat) : length r = length r' -> r <> r' ->
+  exists k, (k < length r)%nat /\ nth k r 0%nat <> nth k r' 0%nat.
+Proof.
+  revert r'. induction r as [|x r IH]; intros [|y r'] Hl Hne; cbn [length] in *; try discriminate.
+  - exfalso. apply Hne. reflexivity.
+  - destruct (Nat.eq_dec x y) as [->|Hxy].
+    + destruct (IH r') as [k [Hk1 Hk2]]; [lia|intros ->; apply Hne; reflexivity|].
+      exists (S k). split; [lia|exact Hk2].
+    + exists 0%nat. split; [lia|exact Hxy].
+Qed.
+
+Lemma inb_disjoint ls r r' idx : length r = length ls -> length r' = length ls -> r <> r' ->
+  inb ls r idx = true -> inb ls r' idx = false.
+Proof.
+  intros Hr Hr' Hne H.
+  destruct (rows_differ r r' ltac:(lia) Hne) as [k [Hk1 Hk2]].
+  unfold inb in *. rewrite forallb_forall in H.
+  assert (Hin : In k (seq 0 (length ls))) by (apply in_seq; lia).
+  specialize (H k Hin).
+  destruct (forallb _ _) eqn:E; [|reflexivity].
+  rewrite forallb_forall in E. specialize (E k Hin).
+  rewrite (in1_disjoint _ _ _ _ Hk2 H) in E. discriminate.
+Qed.
+
+Lemma vals_at_most_one ls idx (bs : list block) :
+  NoDup (map fst bs) -> (forall r, In r (map fst bs) -> length r = length ls) ->
+  at_most_one (map (bval ls idx) bs).
+Proof.
+  induction bs as [|b bs IH]; intros Hn Hs; [exact I|].
+  cbn [map] in Hn. inversion Hn as [|x y Hx Hy]; subst.
+  cbn [map at_most_one]. split.
+  - intros Hsome. apply Forall_forall. intros o Ho. apply in_map_iff in Ho. destruct Ho as [b' [<- Hb']].
+    unfold bval in *. destruct (inb ls (fst b) idx) eqn:E; [|congruence].
+    rewrite (inb_disjoint ls (fst b) (fst b') idx); [reflexivity| | | |exact E].
+    + apply Hs. left. reflexivity.
+    + apply Hs. right. apply in_map. exact Hb'.
+    + intros Heq. apply Hx. rewrite Heq. apply in_map. exact Hb'.
+  - apply IH; [exact Hy|]. intros r Hr. apply Hs. right. exact Hr.
+Qed.
+
+(* with at most one block per combination of charge blocks, to_ndarray's assignment = the sum of the blocks *)
+Theorem to_ndarray_sum a idx : NoDup (rows a) -> rows_shape a -> to_ndarray a idx = dense_sum a idx.
+Proof.
+  intros Hn Hs. unfold to_ndarray, dense_sum. apply olast_osum. apply vals_at_most_one; assumption.
+Qed.
+
+(* ------------------------------------------------------------------ dense form of merge / add *)
+Lemma bval_badd ls idx r f g :
+  bval ls idx (r, badd f g) = match bval ls idx (r, f), bval ls idx (r, g) with
+                              | Some x, Some y => Some (cadd x y) | _, _ => None end.
+Proof. unfold bval, badd. cbn [fst snd]. destruct (inb ls r idx); reflexivity. Qed.
+
+Ltac cnorm := intros; repeat match goal with x : C |- _ => destruct x end;
+  unfold cadd, c0; cbn [fst snd]; f_equal; lia.
+
+Lemma merge_osum ls idx la lb :
+  osum (map (bval ls idx) (merge la lb)) = cadd (osum (map (bval ls idx) la)) (osum (map (bval ls idx) lb)).
+Proof.
+  revert lb. induction la as [|ba ta IHa]; intros lb.
+  - cbn [merge map]. rewrite osum_nil. symmetry. apply cadd_0_l.
+  - induction lb as [|bb tb IHb]; [rewrite merge_nil_r; cbn [map]; rewrite osum_nil; symmetry; apply cadd_0_r|].
+    rewrite merge_cons. destruct (row_eqb (fst ba) (fst bb)) eqn:E.
+    + apply row_eqb_eq in E. cbn [map]. rewrite !osum_cons, IHa.
+      destruct ba as [ra fa], bb as [rb fb]. cbn [fst snd] in *. subst rb.
+      rewrite bval_badd. unfold bval. cbn [fst snd]. destruct (inb ls ra idx); [|reflexivity].
+      generalize (osum (map (bval ls idx) ta)) (osum (map (bval ls idx) tb)) (fa (loc ls ra idx)) (fb (loc ls ra idx)).
+      cnorm.
+    + destruct (row_lt (fst bb) (fst ba)).
+      * cbn [map]. rewrite !osum_cons. rewrite IHb. cbn [map]. rewrite !osum_cons.
+        generalize (osum (map (bval ls idx) ta)) (osum (map (bval ls idx) tb)).
+        destruct (bval ls idx bb), (bval ls idx ba); cnorm.
+      * cbn [map]. rewrite !osum_cons. rewrite IHa. cbn [map]. rewrite !osum_cons.
+        generalize (osum (map (bval ls idx) ta)) (osum (map (bval ls idx) tb)).
+        destruct (bval ls idx bb), (bval ls idx ba); cnorm.
+Qed.
+
+Lemma isort_dense_sum a idx : dense_sum (isort_qdata a) idx = dense_sum a idx.
+Proof.
+  unfold isort_qdata. destruct (qsorted a); [reflexivity|].
+  unfold dense_sum. cbn [legs blks]. apply osum_perm. apply Permutation_map. apply sort_blocks_perm.
+Qed.
+
+Lemma isort_legs a : legs (isort_qdata a) = legs a.
+Proof. unfold isort_qdata. destruct (qsorted a); reflexivity. Qed.
+Lemma scale_legs s a : legs (scale s a) = legs a.
+Proof. unfold scale. destruct (ceqb s c0); reflexivity. Qed.
+
+(* a + alpha b on the sums of the stored blocks: holds whatever the order of the block lists is *)
+Theorem add_dense_sum alpha a b idx : legs a = legs b ->
+  dense_sum (add alpha a b) idx = cadd (dense_sum a idx) (cmul alpha (dense_sum b idx)).
+Proof.
+  intros Hl. unfold add. unfold dense_sum at 1. cbn [legs blks]. rewrite merge_osum.
+  f_equal.
+  - change (osum (map (bval (legs a) idx) (blks (isort_qdata a)))) with
+      (osum (map (bval (legs a) idx) (blks (isort_qdata a)))).
+    rewrite <- (isort_legs a) at 1. fold (dense_sum (isort_qdata a) idx). apply isort_dense_sum.
+  - rewrite Hl. rewrite <- (scale_legs alpha b) at 1. rewrite <- (isort_legs (scale alpha b)) at 1.
+    fold (dense_sum (isort_qdata (scale alpha b)) idx). rewrite isort_dense_sum.
+    apply (proj2 (scale_dense alpha b idx)).
+Qed.
+
+(* ------------------------------------------------------------------ WF is closed under the operations *)
+Lemma scale_blocks_rows s bs : map fst (scale_blocks s bs) = map fst bs.
+Proof. unfold scale_blocks. rewrite map_map. apply map_ext. reflexivity. Qed.
+
+Lemma rows_scale_in s a r : In r (rows (scale s a)) -> In r (rows a).
+Proof.
+  unfold scale, rows. destruct (ceqb s c0); cbn [blks map]; [intros []|].
+  rewrite scale_blocks_rows. exact (fun H => H).
+Qed.
+
+Theorem wf_scale ci s a : WF ci a -> WF ci (scale s a).
+Proof.
+  intros [H1 H2 H3 H4 H5]. unfold scale. destruct (ceqb s c0) eqn:E.
+  - constructor; cbn [qtot legs blks qsorted]; try exact H1.
+    + intros r [].
+    + constructor.
+    + intros r [].
+    + intros _. reflexivity.
+  - constructor; unfold rows_shape, charge_rule, claim_truthful, rows, rank in *; cbn [qtot legs blks qsorted];
+      rewrite ?scale_blocks_rows; assumption.
+Qed.
+
+Lemma conj_rows ci a : rows (conj ci a) = rows a.
+Proof. unfold conj, rows. cbn [blks]. rewrite map_map. apply map_ext. reflexivity. Qed.
+
+Theorem wf_conj ci a : valid_ci ci -> WF ci a -> WF ci (conj ci a).
+Proof.
+  intros Hv [H1 H2 H3 H4 H5]. constructor.
+  - unfold conj. cbn [qtot]. apply make_valid_length. unfold vneg. rewrite map_length. exact H1.
+  - unfold rows_shape. rewrite conj_rows. unfold rank, conj. cbn [legs]. rewrite map_length. exact H2.
+  - rewrite conj_rows. exact H3.
+  - unfold charge_rule. rewrite conj_rows. intros r Hr. unfold conj. cbn [legs qtot].
+    apply row_ok_conj; [exact Hv|exact H1|apply H4; exact Hr].
+  - unfold claim_truthful. rewrite conj_rows. unfold conj. cbn [qsorted]. exact H5.
+Qed.
+
+Lemma NoDup_map_in {A B} (f : A -> B) l :
+  (forall x y, In x l -> In y l -> f x = f y -> x = y) -> NoDup l -> NoDup (map f l).
+Proof.
+  induction l as [|x l IH]; intros Hinj Hn; [constructor|].
+  inversion Hn as [|x' l' Hx Hl]; subst. cbn [map]. constructor.
+  - intros Hin. apply in_map_iff in Hin. destruct Hin as [y [Hy Hin]].
+    apply Hx. rewrite (Hinj x y); [exact Hin|left; reflexivity|right; exact Hin|symmetry; exact Hy].
+  - apply IH; [|exact Hl]. intros u v Hu Hv. apply Hinj; right; assumption.
+Qed.
+
+Lemma transpose_rows p a : rows (transpose p a) = map (gather 0%nat p) (rows a).
+Proof. unfold transpose, rows. cbn [blks]. rewrite !map_map. apply map_ext. reflexivity. Qed.
+
+Theorem wf_transpose ci p a : Permutation p (seq 0 (rank a)) -> WF ci a -> WF ci (transpose p a).
+Proof.
+  intros HP [H1 H2 H3 H4 H5]. pose proof (perm_seq_length _ _ HP) as Hl. constructor.
+  - exact H1.
+  - unfold rows_shape. rewrite transpose_rows. intros r Hr. apply in_map_iff in Hr. destruct Hr as [r0 [<- _]].
+    unfold rank, transpose. cbn [legs]. rewrite !gather_length. reflexivity.
+  - rewrite transpose_rows. apply NoDup_map_in; [|exact H3].
+    intros x y Hx Hy Heq.
+    rewrite <- (gather_inv p (rank a) x HP (H2 x Hx)), <- (gather_inv p (rank a) y HP (H2 y Hy)), Heq. reflexivity.
+  - unfold charge_rule. rewrite transpose_rows. intros r Hr. apply in_map_iff in Hr. destruct Hr as [r0 [<- Hr0]].
+    unfold transpose. cbn [legs qtot]. intros j Hj. rewrite row_charge_transpose by exact HP.
+    apply (H4 r0 Hr0 j Hj).
+  - intros Hf. unfold transpose in Hf. cbn [qsorted] in Hf. discriminate.
+Qed.
+
+Theorem wf_add ci alpha a b : WF ci a -> WF ci b -> legs a = legs b -> qtot a = qtot b -> WF ci (add alpha a b).
+Proof.
+  intros Wa Wb Hl Hq.
+  pose proof (wf_scale ci alpha b Wb) as Wsb.
+  destruct Wa as [A1 A2 A3 A4 A5]. destruct Wb as [B1 B2 B3 B4 B5]. destruct Wsb as [S1 S2 S3 S4 S5].
+  assert (Hsa : ssorted (rows (isort_qdata a))) by (apply isort_ssorted; assumption).
+  assert (Hsb : ssorted (rows (isort_qdata (scale alpha b)))) by (apply isort_ssorted; assumption).
+  assert (Hss : ssorted (rows (add alpha a b))).
+  { unfold add, rows. cbn [blks]. apply merge_ssorted; assumption. }
+  assert (Hin : forall r, In r (rows (add alpha a b)) -> In r (rows a) \/ In r (rows b)).
+  { intros r Hr. unfold add, rows in Hr. cbn [blks] in Hr. apply merge_rows_in in Hr. destruct Hr as [Hr|Hr].
+    - left. apply (Permutation_in _ (isort_rows_perm a)). exact Hr.
+    - right. apply (rows_scale_in alpha). apply (Permutation_in _ (isort_rows_perm (scale alpha b))). exact Hr. }
+  constructor.
+  - exact A1.
+  - intros r Hr. unfold rank, add. cbn [legs]. destruct (Hin r Hr) as [H|H].
+    + apply A2. exact H.
+    + rewrite Hl. apply B2. exact H.
+  - apply ssorted_nodup. exact Hss.
+  - intros r Hr. unfold add. cbn [legs qtot]. destruct (Hin r Hr) as [H|H].
+    + apply A4. exact H.
+    + rewrite Hl, Hq. apply B4. exact H.
+  - intros _. apply strictly_of_ssorted. exact Hss.
+Qed.
+
+(* a + alpha b as numpy arrays: needs the truthful sortedness claims (WF) of both operands *)
+Theorem add_dense ci alpha a b idx : WF ci a -> WF ci b -> legs a = legs b -> qtot a = qtot b ->
+  to_ndarray (add alpha a b) idx = cadd (to_ndarray a idx) (cmul alpha (to_ndarray b idx)).
+Proof.
+  intros Wa Wb Hl Hq. pose proof (wf_add ci alpha a b Wa Wb Hl Hq) as Wr.
+  rewrite (to_ndarray_sum (add alpha a b)) by (destruct Wr; assumption).
+  rewrite (to_ndarray_sum a) by (destruct Wa; assumption).
+  rewrite (to_ndarray_sum b) by (destruct Wb; assumption).
+  apply add_dense_sum. exact Hl.
+Qed.
+
+(* the merge of a list whose claim is FALSE can produce duplicate rows: the dependency of C01 on C02 is real *)
+Definition bad_claim_example : arr :=
+  mkArr [mkLeg [1%nat; 1%nat] [[0]; [0]] 1] [0] [([1%nat], fun _ => (5, 0)); ([0%nat], fun _ => (7, 0))] true.
+Definition good_claim_example : arr :=
+  mkArr [mkLeg [1%nat; 1%nat] [[0]; [0]] 1] [0] [([0%nat], fun _ => (7, 0)); ([1%nat], fun _ => (5, 0))] true.
+Lemma bad_claim_breaks_add :
+  (to_ndarray (add (1, 0) bad_claim_example good_claim_example) [0%nat] = (7, 0)) /\
+  (cadd (to_ndarray bad_claim_example [0%nat]) (cmul (1, 0) (to_ndarray good_claim_example [0%nat])) = (14, 0)).
+Proof. vm_compute. split; reflexivity. Qed.
